@@ -204,7 +204,7 @@ def return_value(chk, prog, PL, AYp, Sp, UA):
     for stereo in (0, 1):
         mode = "stereo" if stereo else "mono"
         key = "T-TERM/Player::play/%s/result" % mode
-        w = Walker(prog, loop_bound=3)
+        w = Walker(prog, loop_bound=6 if chk.tier == "thorough" else 3)
         w.opaque_paths.add(UA)
         w.effect_hook = lambda w_, st, path, a, d, wh: EffectResult(tm.sym("HAS_FRAME%d" % sum(1 for e in st.trace if e.path == UA), 1), havoc=False) if path == UA else EffectResult(None, havoc=False)
         st = w.new_state()
